@@ -542,6 +542,9 @@ MASKED_AEAD = {"128": ("SPEC_ASCON128", 16, "ascon_masked_key_128_t", "ascon_mas
                "80pq": ("SPEC_ASCON80PQ", 20, "ascon_masked_key_160_t", "ascon_masked_key_160", 8)}
 
 
+MASKED_REPLAY = {"prog": "replay/r_masked.c", "srcs": ['src/aead/ascon-aead-masked-128.c', 'src/aead/ascon-aead-masked-128a.c', 'src/aead/ascon-aead-masked-80pq.c', 'src/aead/ascon-aead-masked-common.c', 'src/aead/ascon-aead-128.c', 'src/aead/ascon-aead-128a.c', 'src/aead/ascon-aead-80pq.c', 'src/aead/ascon-aead-common.c', 'src/masking/ascon-masked-word-c64.c', 'src/masking/ascon-masked-state.c', 'src/masking/ascon-masked-key.c', 'src/masking/ascon-x2-c64.c', 'src/masking/ascon-x3-c64.c', 'src/masking/ascon-x4-c64.c', 'src/core/ascon-clean.c', 'src/core/ascon-c64.c', 'src/core/ascon-sliced64.c']}
+
+
 def masked_aead_groups(prefix, props, tier="quick", ops=("encrypt", "decrypt"), variants=("128", "128a", "80pq"), cfg="C64"):
     """Masked one-shot AEAD == the unmasked specification for every random tape (plain-assertion groups; the masked
     permutations are specification stubs = the contract proved in C10; everything else is the real code).
@@ -573,7 +576,7 @@ def masked_aead_groups(prefix, props, tier="quick", ops=("encrypt", "decrypt"), 
                                     functions=["ascon%s_masked_aead_%s" % (var, op), "ascon_masked_aead_absorb_%d" % R,
                                                "ascon_masked_aead_%s_%d" % (op, R), "%s_init" % kf],
                                     assumed=["ascon_x2_permute", "ascon_x3_permute", "ascon_x4_permute", "ascon_trng_generate_64"],
-                                    expect_classes=["assertion"]))
+                                    expect_classes=["assertion"], replay=MASKED_REPLAY if cfg == "C64" and not sfx else None))
     return gs
 
 
@@ -583,11 +586,11 @@ def masked_asm_permute_groups(prefix, props, tier="quick", seed=0):
     gs = []
     for n in (2, 3, 4):
         rounds = list(range(0, 13)) + [13, 255]
-        if tier == "quick":
+        if tier == "quick":     # x2: every round; x3 / x4: a seed-rotated sample plus the exit case (the thorough tier runs all)
             if n == 3:
-                rounds = [r for r in rounds if r % 3 == seed % 3 or r >= 11]
+                rounds = [seed % 12, (seed + 5) % 12, 12]
             if n == 4:
-                rounds = [(seed % 12), 12]
+                rounds = [(seed + 3) % 12, 12]
         sig = ["--fn=ascon_x%d_permute:void:ascon_masked_state_t * state,uint8_t first_round,uint64_t * preserve" % n]
         for r in rounds:
             gs.append(Group("%s.permute.x%d.x86_64_asm.round%d" % (prefix, n, r), props, "harness/h_masked_permute_asm.c",
@@ -596,13 +599,22 @@ def masked_asm_permute_groups(prefix, props, tier="quick", seed=0):
                             lift=("src/masking/ascon-x%d-asm-x86-64.S" % n, sig), unwind=14, timeout=2400,
                             functions=["ascon_x%d_permute (x86-64 assembly, lifted)" % n], expect_classes=["assertion"],
                             note="round loop (<= 12 iterations) completely unwound with unwinding assertion; cut at the loop condition label"))
-            if n == 4:
-                gs[-1].reach = False      # vacuity of this harness is established by the x2/x3 groups (the x4 reach pass costs 10 min)
+            if n >= 3:
+                gs[-1].reach = False      # vacuity of this harness is established by the x2 groups (an x4 reach pass costs 10 min)
     return gs
 
 
 SIV_VARS = {"128": ("SPEC_ASCON128", 16, 8), "128a": ("SPEC_ASCON128A", 16, 16), "80pq": ("SPEC_ASCON80PQ", 20, 8)}
 ISAP_VARS = {"128a": ("SPEC_ISAP_128A", 16), "128": ("SPEC_ISAP_128", 16), "80pq": ("SPEC_ISAP_80PQ", 20)}
+
+
+MODES_REPLAY_SRCS = ["src/siv/ascon-siv-128.c", "src/siv/ascon-siv-128a.c", "src/siv/ascon-siv-80pq.c", "src/isap/ascon-isap-128.c",
+                     "src/isap/ascon-isap-128a.c", "src/isap/ascon-isap-80pq.c", "src/aead/ascon-aead-common.c", "src/core/ascon-clean.c",
+                     "src/core/ascon-c64.c", "src/core/ascon-sliced64.c"]
+
+
+def modes_replay(which):
+    return {"prog": "replay/r_modes.c", "srcs": MODES_REPLAY_SRCS, "args": [which]}
 
 
 def mode_lens(R, tier):
@@ -624,7 +636,7 @@ def siv_groups(prefix, props, tier="quick", ops=("encrypt", "decrypt")):
                                       "VERIF_ADLEN=%d" % ad, "VERIF_MLEN=%d" % ml, "VERIF_ABSTRACT_P", "VERIF_PLAIN"] +
                                      (["VERIF_SIV_ENCRYPT"] if op == "encrypt" else []),
                                 drop_unused=True, unwind=70, timeout=900, functions=["ascon%s_siv_%s" % (var, op)],
-                                assumed=["ascon_permute"], expect_classes=["assertion"]))
+                                assumed=["ascon_permute"], expect_classes=["assertion"], replay=modes_replay("siv")))
     return gs
 
 
@@ -644,5 +656,5 @@ def isap_groups(prefix, props, tier="quick", ops=("encrypt", "decrypt")):
                                      (["VERIF_ISAP_ENCRYPT"] if op == "encrypt" else []),
                                 drop_unused=True, unwind=170, timeout=1500,
                                 functions=["ascon%s_isap_aead_init" % var, "ascon%s_isap_aead_%s" % (var, op)],
-                                assumed=["ascon_permute"], expect_classes=["assertion"]))
+                                assumed=["ascon_permute"], expect_classes=["assertion"], replay=modes_replay("isap")))
     return gs
